@@ -160,7 +160,7 @@ func (p *Parser) Parse() (al align.Alignment, err error) {
 		if p.strict {
 			// if strict
 			name := p.s.Read(10)
-			if []rune(name)[len(name)-1] == eof {
+			if runes := []rune(name); runes[len(runes)-1] == eof {
 				err = fmt.Errorf("bad Phylip format, less sequences in the file than indicated in the header : %d vs. %d", nbseq, i)
 				return
 			}
